@@ -19,6 +19,8 @@ Statements
 ["make", r]             create Routine r now (a later ["spawn", r] anywhere plays that object)
 ["embed", r]            run routine r in place: yield from embed(Routine r)
 ["cset", c, v(, "fn")]  condition c's test = v (or a function returning v)
+["busy", d]             the routine spends d seconds of physical time (RT only)
+["resched", r, d]       clock_of_r.sched_abs(its present beat + d, the existing Routine r)
 ["spawna", r, d]        clock_of_r.sched_abs(its present beat + d, Routine r); d < 0: in the past
 ["bundle", lat, els, "bind"]  flat messages through Server.default.bind()
                         with Server.latency = lat
@@ -158,6 +160,10 @@ def _gen_stmt(tp, feat, r, routines, n_clocks):
     if x < 11:
         return ['rec']
     if feat.get('sends') and x < 15:
+        if feat.get('busy') and tp.draw(6) == 0:
+            # the routine takes its time (and keeps its clock thread and the
+            # library's lock busy meanwhile); logical time does not care
+            return ['busy', tp.choice([0.01, 0.05, 0.2, 0.5])]
         if tp.draw(3) == 0:
             return ['msg', tp.draw(100)]
         if feat.get('bind') and tp.draw(3) == 0:
@@ -474,6 +480,17 @@ class Interp:
                                'secs': main.current_tt._seconds,
                                'delta': st[2], 'now': self.now()})
             cc.sched_abs(at, r)
+        elif op == 'busy':
+            if self.k is not None:
+                self.k.sleep(st[1])
+        elif op == 'resched':
+            # schedule again a routine that is already pending on its clock
+            # (it moves: one wake-up, behind the others at its new time)
+            r = self.robj.get(st[1])
+            if r is not None:
+                cc = self.clocks[self.prog['routines'][st[1]]['clock']]
+                self.event('resched', rid, st[1], st[2])
+                cc.sched_abs(cc.beats + st[2], r)
         elif op == 'msg':
             self.send(rid, 'msg', None, [['M', st[1]]],
                       lambda: self.addr.send_msg('/m', rid, st[1]))
